@@ -2,6 +2,9 @@
 # usage: keep_seed.sh <Cxx> <name> <srcdir> <demo-relative-path>
 # Confirms a seeded change in a scratch worktree of /repo: compiles, pinned tests pass, demo fails with the
 # change and passes without it. On success stores it under /verif/seeded/<name>/.
+# A suite run that ends non-zero WITHOUT any "--- FAIL" line (a package hit the 10-minute go test timeout: the pinned
+# suite has timing-dependent tests - TestHertz_Spin, TestMaxConn - that hang or time out on a loaded machine) gets its
+# failed packages re-run once on their own; both logs are kept.
 id=$1; name=$2; src=$3; demo=$4
 export GOFLAGS=-mod=mod GOPROXY=off GOSUMDB=off GOTOOLCHAIN=local
 wt=/tmp/keepseed.$$
@@ -12,12 +15,20 @@ res() { echo "$1" | tee -a $out/confirm.log; }
 : > $out/confirm.log
 git apply $src/patch.diff || { res "patch does not apply"; git -C /repo worktree remove --force $wt; exit 2; }
 go build ./... > $out/build.log 2>&1 && res "build: ok" || res "build: FAILED"
-go test -vet=off -count=1 ./... > $out/tests_with_patch.log 2>&1 && res "existing tests with patch: pass" || res "existing tests with patch: FAIL ($(grep -c '^--- FAIL' $out/tests_with_patch.log) failing)"
+if go test -vet=off -count=1 ./... > $out/tests_with_patch.log 2>&1; then res "existing tests with patch: pass"
+else
+  nfail=$(grep -c '^--- FAIL' $out/tests_with_patch.log)
+  pkgs=$(grep '^FAIL	' $out/tests_with_patch.log | awk '{print $2}' | sort -u | tr '\n' ' ')
+  if [ "$nfail" = 0 ] && [ -n "$pkgs" ] && go test -vet=off -count=1 $pkgs > $out/tests_with_patch_rerun.log 2>&1; then
+    res "existing tests with patch: pass (first run: package(s) $pkgs hit the go test timeout under load without any test failing; re-run on their own: ok)"
+  else
+    res "existing tests with patch: FAIL ($nfail failing)"
+  fi
+fi
 cp $src/$(basename $demo) $wt/$demo
 pkg=./$(dirname $demo)
-go test -vet=off -count=1 -run 'Seed|seed|Demo' $pkg > $out/demo_with_patch.log 2>&1 && res "demo with patch: PASSES (unexpected)" || res "demo with patch: fails (expected)"
+go test -vet=off -count=1 -timeout 5m -run 'Seed|seed|Demo' $pkg > $out/demo_with_patch.log 2>&1 && res "demo with patch: PASSES (unexpected)" || res "demo with patch: fails (expected)"
 git apply -R $src/patch.diff
-go test -vet=off -count=1 -run 'Seed|seed|Demo' $pkg > $out/demo_without_patch.log 2>&1 && res "demo without patch: passes (expected)" || res "demo without patch: FAILS (unexpected)"
+go test -vet=off -count=1 -timeout 5m -run 'Seed|seed|Demo' $pkg > $out/demo_without_patch.log 2>&1 && res "demo without patch: passes (expected)" || res "demo without patch: FAILS (unexpected)"
 cp $src/patch.diff $out/patch.diff; cp $src/$(basename $demo) $out/; [ -f $src/notes.md ] && cp $src/notes.md $out/agent_notes.md
-tail -3 $out/tests_with_patch.log > /dev/null
 cd /; git -C /repo worktree remove --force $wt; rm -rf $wt
